@@ -26,13 +26,15 @@ var OptKeys = []string{"d", "pm", "us", "pmus"}
 
 // Instance is a unit instantiated for one flavour and option set: own proto package, file name and Go package.
 type Instance struct {
-	Unit           *Unit
-	Flavour        string
-	OptKey         string
-	GoPkg          string
-	ProtoPath      string
-	File           *descriptorpb.FileDescriptorProto
-	Deps           []*descriptorpb.FileDescriptorProto
+	Unit      *Unit
+	Flavour   string
+	OptKey    string
+	GoPkg     string
+	ProtoPath string
+	File      *descriptorpb.FileDescriptorProto
+	Deps      []*descriptorpb.FileDescriptorProto
+	// DepPath is the instantiated path of the unit's own dependency file ("" = none); it is part of Deps
+	DepPath        string
 	Fast           bool
 	FilePerMessage bool
 	Unsafe         bool
@@ -48,7 +50,7 @@ func Supported(u *Unit, flavour string) bool {
 		// (Size, MarshalTo): no option can make this compile, not part of the supported feature set
 		return false
 	}
-	if flavour == "gv1" && len(u.File.Dependency) > 0 {
+	if flavour == "gv1" && (len(u.File.Dependency) > 0 || u.Dep != nil) {
 		// legacy golang/protobuf structs + well-known types of another generation: not instantiated
 		return false
 	}
@@ -73,10 +75,30 @@ func Instantiate(u *Unit, flavour, optKey string) (*Instance, error) {
 		f.Options = &descriptorpb.FileOptions{}
 	}
 	f.Options.GoPackage = proto.String("verifgen/gen/" + in.GoPkg + ";" + in.GoPkg)
+	var dep *descriptorpb.FileDescriptorProto
+	oldDepPrefix, newDepPrefix := "\x00", ""
+	if u.Dep != nil {
+		dep = proto.Clone(u.Dep).(*descriptorpb.FileDescriptorProto)
+		oldDepPrefix = "." + dep.GetPackage() + "."
+		newDepPkg := dep.GetPackage() + "." + flavour + optKey
+		newDepPrefix = "." + newDepPkg + "."
+		in.DepPath = "gen/" + in.GoPkg + "/dep/v2/" + u.Name + "_dep.proto"
+		for i, d := range f.Dependency {
+			if d == dep.GetName() {
+				f.Dependency[i] = in.DepPath
+			}
+		}
+		dep.Package = proto.String(newDepPkg)
+		dep.Name = proto.String(in.DepPath)
+		dep.Options = &descriptorpb.FileOptions{GoPackage: proto.String("verifgen/gen/" + in.GoPkg + "/dep/v2;deppb")}
+	}
 	var fixField func(fd *descriptorpb.FieldDescriptorProto)
 	fixField = func(fd *descriptorpb.FieldDescriptorProto) {
 		if fd.TypeName != nil && strings.HasPrefix(fd.GetTypeName(), oldPrefix) {
 			fd.TypeName = proto.String(newPrefix + strings.TrimPrefix(fd.GetTypeName(), oldPrefix))
+		}
+		if fd.TypeName != nil && strings.HasPrefix(fd.GetTypeName(), oldDepPrefix) {
+			fd.TypeName = proto.String(newDepPrefix + strings.TrimPrefix(fd.GetTypeName(), oldDepPrefix))
 		}
 		if fd.Extendee != nil && strings.HasPrefix(fd.GetExtendee(), oldPrefix) {
 			fd.Extendee = proto.String(newPrefix + strings.TrimPrefix(fd.GetExtendee(), oldPrefix))
@@ -123,9 +145,18 @@ func Instantiate(u *Unit, flavour, optKey string) (*Instance, error) {
 		return nil
 	}
 	for _, d := range f.Dependency {
+		if d == in.DepPath && dep != nil {
+			continue
+		}
 		if err := add(d); err != nil {
 			return nil, err
 		}
+	}
+	if dep != nil {
+		for _, m := range dep.MessageType {
+			fixMsg(m)
+		}
+		in.Deps = append(in.Deps, dep)
 	}
 	return in, nil
 }
